@@ -538,6 +538,13 @@ func (p *Proxy) handle(ctx *Context, conn net.Conn, brw *bufio.ReadWriter) error
 		req.URL.Host = req.Host
 	}
 
+	// A new exchange starts: the traffic shaping context the previous response
+	// left on the connection does not apply to it, in particular not to a
+	// CONNECT response and the tunnel behind it.
+	if ptsconn, ok := conn.(*trafficshape.Conn); ok {
+		ptsconn.Context = &trafficshape.Context{}
+	}
+
 	if req.Method == "CONNECT" {
 		return p.handleConnectRequest(ctx, req, session, brw, conn)
 	}
